@@ -164,6 +164,37 @@ fn guard<F: Fn() -> Option<String> + 'static>(f: F) -> Box<dyn Fn() -> Option<St
 fn cases(mode: &str) -> Vec<Case> {
     let mut out: Vec<Case> = Vec::new();
     match mode {
+        // C03: every entry point returns (no panic) on degenerate texts and on number sequences, at ordinary and non-finite thresholds
+        "total" => {
+            let degenerate = ["", " ", "\t\n", "-", "--", "- -", "'", "\u{a0}", "é", "e\u{301}", "𝟙", "zero", "o", "and", "et", "y", "point", "virgule",
+                "twenty first , second", "zero first second", "first second third", "one , two , three", "twenty first second twelve thirteen",
+                "vingt et unième , deuxième", "ventunesimo , secondo", "einundzwanzigste , zweite", "vigésimo primeiro , segundo", "thousand thousand",
+                "ten thousand thousand", "twelve million million", "hundred hundred", "billion billion", "zero zero zero", "point five", "five point", "five point point five"];
+            let mut texts: Vec<String> = degenerate.iter().map(|t| t.to_string()).collect();
+            for (_, p) in streams() { texts.push(p.replace('|', "").replace('!', "")); }
+            texts.push("nine hundred ninety nine ".repeat(40));
+            for code in LANGS {
+                for t in &texts {
+                    let (c, t) = (code.to_string(), t.clone());
+                    out.push(Case {
+                        descr: serde_json::json!({"mode":"total","lang":code,"text":t}),
+                        run: guard(move || {
+                            let l = lang(&c);
+                            let _ = text2digits(&t, &l);
+                            for th in [0.0, 10.0, 100.0, f64::INFINITY, f64::NEG_INFINITY, f64::NAN, -1.0] {
+                                let _ = replace_numbers_in_text(&t, &l, th);
+                                let ts: Vec<Tok> = t.split_whitespace().map(Tok::w).collect();
+                                let _ = find_numbers(ts.clone().into_iter(), &l, th);
+                                let mut it = find_numbers_iter(ts.into_iter(), &l, th);
+                                let mut n = 0;
+                                while it.next().is_some() { n += 1; if n > 10_000 { return Some("the lazy iterator does not end".to_string()); } }
+                            }
+                            None
+                        }),
+                    });
+                }
+            }
+        }
         // C02: a text without number words comes back identical; around a number, the rest of the text is kept verbatim
         "ident" => {
             let plain = [
